@@ -55,6 +55,11 @@ pub struct Session<'store> {
     /// If the session has been invalidated, `server_state` MUST
     /// be set to `Some(ServerState::MarkedForDeletion)`.
     invalidated: InvalidationFlag,
+    /// `true` if the client attached a session cookie to the request.
+    ///
+    /// We can't derive it from `id`: a successful [`Session::sync`] re-aligns `id` with
+    /// the store, no matter what the client is holding.
+    has_client_cookie: bool,
     store: &'store SessionStore,
     config: &'store SessionConfig,
     /// This field is used to prevent `Send` being implemented for `Session`.
@@ -187,6 +192,7 @@ impl<'store> Session<'store> {
                 state: client_state,
             },
             invalidated: InvalidationFlag::new(),
+            has_client_cookie: previous_session_id.is_some(),
             store,
             config,
             _unsend: Default::default(),
@@ -635,6 +641,20 @@ impl Session<'_> {
             });
             new_cell_with(new_state)
         };
+        // The store is now aligned with the in-memory state: the record, if there is one, lives
+        // under the new id. Any further load or sync within this request must target that id,
+        // rather than renaming, creating or loading the record a second time.
+        match self.id {
+            CurrentSessionId::ToBeRenamed { new, .. } => {
+                self.id = CurrentSessionId::Existing(new);
+            }
+            CurrentSessionId::NewlyGenerated(id)
+                if matches!(self.server_state.get(), Some(Unchanged { .. })) =>
+            {
+                self.id = CurrentSessionId::Existing(id);
+            }
+            CurrentSessionId::NewlyGenerated(_) | CurrentSessionId::Existing(_) => {}
+        }
         Ok(())
     }
 
@@ -661,7 +681,7 @@ impl Session<'_> {
         let cookie_name = &cookie_config.name;
 
         if self.invalidated.is_invalidated() {
-            if self.id.old_id().is_none() {
+            if !self.has_client_cookie {
                 // This is a new session, so there's nothing on the client-side
                 // to be removed.
                 return Ok(None);
@@ -694,7 +714,7 @@ impl Session<'_> {
                     // The session is new, we don't have a server-side record, and the client state is empty.
                     // We don't need to create a session cookie in this case.
                     if client_state.is_empty()
-                        && self.id.old_id().is_none()
+                        && !self.has_client_cookie
                         && !server_record_exists.unwrap_or(true)
                     {
                         return Ok(None);
